@@ -466,12 +466,16 @@ def check_yaml_spelling(ctx, real, text, parsed, case):
 ALPHA8 = ['(', ')', 'and', 'or', 'not', 'c', 'w', 'q']
 ALPHA6 = ['(', ')', 'and', 'or', 'not', 'c']
 WORDS = ['abc', 'role', 'True', '1', 'None', 'is_admin', 'admin_required', 'rule', 'http', '@@', '!!', '%(x)s', 'é',
-         'a.b', '*', 'all', 'true', 'yes', '@!', '-', '1.5', 'r0']
+         'a.b', '*', 'all', 'true', 'yes', '@!', '-', '1.5', 'r0',
+         # compatibility look-alikes of the two constants: other characters, hence ordinary colon-less words (deny)
+         '\uff20', '\ufe6b', '\uff01', '\ufe57', '\uff20\uff20', '(\uff20)', '\u24d0', '\uff41\uff4c\uff4c']
 LONE = ['not', 'and', 'or', 'NOT', 'And', '(', ')', '((', '))', '"abc"', "'abc'", '""', "''", '"role:r0"', "'@'", '"@"']
 FRAGS = ['role:a', 'role:b', 'role:A', '@', '!', 'and', 'or', 'not', 'AND', 'Not', '(', ')', '((', '))', '(role:a',
          'role:b)', '"q"', "'q'", '"', "'", 'junk', 'ro le', 'role:a)', '(@)', 'é', ':', '::', 'a:', 'not(', '(not',
          'and)', 'or(', '"role:a"', '(("q"', "'@')", 'is_admin:True', 'rule:zz', '%', 'role:', ':a', '（', '）', '\\', ',',
-         '[', ']', '{', '}', '\x00', '\x7f', '‮', '“', '”']
+         '[', ']', '{', '}', '\x00', '\x7f', '‮', '“', '”',
+         # full-width / small-form look-alikes of the constants, the keywords and a check
+         '\uff20', '\ufe6b', '\uff01', '\uff41\uff4e\uff44', '\uff4f\uff52', '\uff4e\uff4f\uff54', '\uff52\uff4f\uff4c\uff45\uff1aa', 'role\uff1aa']
 SEPS = ['', ' ', ' ', ' ', '  ', '\t', '\n', '\r\n', '\x0b', '\x0c'] + expr.UNICODE_WS
 
 
